@@ -205,13 +205,13 @@ def rules(rep, m):
     sw = ASM.Switch(fns["cmi_coroutine_context_switch"]).run()
     r1 = rep.rule("R-C03-1", "save/restore symmetry: after the stack switch every pop / ldmxcsr / popf reads the frame slot "
                   "that the matching push / stmxcsr / pushf wrote for the same register, the saved frame is not modified "
-                  "between save and switch, and the net stack effect is zero", floor=8)
+                  "between save and switch, and the net stack effect is zero", floor=7)
     for k, v in sw.layout:
         r1.instance("frame +%d: %s" % (k, ASM._show(v)))
     rep.sample({"rule": "R-C03-1", "frame_layout": [[k, ASM._show(v)] for k, v in sw.layout],
                 "instructions": [raw.split("\t")[-1] for a, mn, ops, raw in fns["cmi_coroutine_context_switch"]]})
-    r2 = rep.rule("R-C03-2", "ABI coverage: all SysV callee-saved registers (rbx, rbp, r12-r15) and MXCSR are saved, none "
-                  "is written before its save or after its restore", floor=7)
+    r2 = rep.rule("R-C03-2", "ABI coverage: all SysV callee-saved registers (rbx, rbp, r12-r15), MXCSR and the flags register are "
+                  "saved, none is written before its save or after its restore", floor=7)
     r3 = rep.rule("R-C03-3", "message: rax receives the third argument (rdx) after the restore, and rdx is not written "
                   "before that", floor=1)
     for r in ASM.CALLEE_SAVED + ("mxcsr",):
@@ -228,6 +228,14 @@ def rules(rep, m):
         else:
             rep.finding(r3, "cmi_coroutine_context_switch", key, msg, where="src/port/x86-64/linux/" + ASM_UNIT)
             n3 += 1
+    # the flags register is part of what the switch carries over (the frame the property's mechanism names): a process that
+    # set a persistent flag (direction, alignment check) gets it back, and it does not leak into whoever runs next
+    saved_names = {ASM._show(v) for k, v in sw.layout}
+    if "rflags" not in saved_names:
+        rep.finding(r2, "cmi_coroutine_context_switch", "abi:not-saved:rflags", "the flags register is neither saved on the outgoing "
+                    "stack nor restored from the incoming one: persistent flags a process sets (DF, AC, ...) leak into the "
+                    "dispatcher and every process resumed afterwards, and the process loses them", where="src/port/x86-64/linux/" + ASM_UNIT)
+        n2 += 1
     r1.obligations += len(sw.layout) + 2
     r1.discharged += max(0, len(sw.layout) + 2 - n1)
     r2.obligations += 7
